@@ -154,7 +154,7 @@ def one(arg):
             r2 = outcome(lambda: make_selector(kind, quant2, qual2, n_best, thresh_corr=tc).select(X2, y2 if False else y))
             return r2
         # (1) negate / rescale quantitative features
-        for name, fn in (('negated', lambda v: -v), ('rescaled_x4', lambda v: v * 4.0), ('rescaled_x0.5', lambda v: v * 0.5)):
+        for name, fn in (('negated', lambda v: -v), ('rescaled_x4', lambda v: v * 4.0), ('rescaled_x0.5', lambda v: v * 0.5), ('rescaled_x2^-33', lambda v: v * 2.0 ** -33), ('rescaled_x2^40', lambda v: v * 2.0 ** 40)):
             X2 = X.copy(); q = rng.choice([f for f in quant if f != 'qconst']); X2[q] = fn(X2[q])
             r2 = outcome(lambda: make_selector(kind, quant, qual, n_best, thresh_corr=tc).select(X2, y))
             rec('select#post.invariant_under_quantitative_%s' % ('negation' if name == 'negated' else 'positive_rescaling'), r2[0] == 'ok' and (sel_ties if name == 'negated' else sel) == list(r2[1]), 'feature %s %s: %r instead of %r' % (q, name, r2[1] if r2[0] == 'ok' else r2[0], sel), dict(reencoding=name, feature=q))
@@ -270,9 +270,33 @@ def one(arg):
     return recs
 
 
+def fence_cases(seed):
+    """C15, user-supplied [iqr_measure, kruskal_measure]: values lying EXACTLY on a Tukey fence (q3 + 1.5 iqr) are inside for x and, mirrored, for -x:
+    negating the feature must not change the selection.  Small frames built so that quartiles and fences are exact."""
+    from AutoCarver.selectors import ClassificationSelector
+    from AutoCarver.selectors.measures import iqr_measure, kruskal_measure
+    recs = []; rng = random.Random(seed)
+    for (k, m, t, top) in ((5, 7, 2, 6), (5, 9, 2, 6), (5, 4, 1, 6), (6, 2, 2, 10)):
+        v = [float(i) for i in range(k)] * m + [float(top)] * t; rng.shuffle(v); n = len(v)
+        q1, q3 = pd.Series(v).quantile(.25), pd.Series(v).quantile(.75)
+        if q3 + 1.5 * (q3 - q1) != top: continue
+        X = pd.DataFrame({'qfence': v, 'qother': [round(rng.random(), 3) for _ in range(n)]}); y = pd.Series([int(a >= k // 2) for a in v])
+        share = t / n
+        for thr in (share / 2, share * 2):
+            mk = lambda: ClassificationSelector(n_best=2, quantitative_features=['qfence', 'qother'], qualitative_features=[], verbose=False, quantitative_measures=[iqr_measure, kruskal_measure], thresh_iqr=thr, thresh_kruskal=float('inf'))
+            a = outcome(lambda: mk().select(X, y)); Xn = X.copy(); Xn['qfence'] = -Xn['qfence']; b = outcome(lambda: mk().select(Xn, y))
+            w = dict(selector='ClassificationSelector', reencoding='negated', feature='qfence', default_measures=False, measures=['iqr', 'kruskal'], thresh_iqr=thr, values=v, target=y.tolist())
+            recs.append(('select#post.invariant_under_quantitative_negation', a[0] == b[0] and (a[0] != 'ok' or list(a[1]) == list(b[1])), w,
+                         'user measures [iqr, kruskal], %d of %d values exactly on the upper fence %g, thresh_iqr=%.4f: %r vs %r after negation' % (t, n, top, thr, a[1] if a[0] == 'ok' else a[0], b[1] if b[0] == 'ok' else b[0])))
+    return recs
+
+
 def run(ctx):
     n = 40 if ctx.tier == 'quick' else 400
     ctx.bound('select', '%d seeded frames (60-120 rows; quantitative: correlated pair, near-duplicate, negated duplicate, noise, constant, 30%% NaN; qualitative: associated pair, noise, constant, NaN), '
               'binary / 3-class / continuous targets, n_best in {1,2,3,5}, thresh_corr in {1,0.9,0.7,0.5}, default measures and filters' % n)
     for recs in zoo.pmap(one, [(ctx.seed * 101 + i, ctx.prop) for i in range(n)]):
         for clause, ok, wit, msg in recs: ctx.check(clause, 'select', ok, wit, msg)
+    if ctx.prop == 'C15':
+        for j in range(2 if ctx.tier == 'quick' else 10):
+            for clause, ok, wit, msg in fence_cases(ctx.seed * 7 + j): ctx.check(clause, 'select', ok, wit, msg)
